@@ -176,10 +176,33 @@ def _rom48():
         return f.read()
 
 
-def gen_code(rnd, org, m128, isr_addr, buf):
+# Stack pointer values at which the two bytes an interrupt acknowledge (or any push) writes fall on different sides of
+# the ROM/RAM border or of the 64K wrap: the byte at SP-1 and the byte at SP-2 are each stored only when their own
+# address is RAM.  SPLIT_SP: exactly one of the two lands in ROM; the others are their neighbours.
+SPLIT_SP = (0x4001, 0x0001)
+EDGE_SP = (0x4001, 0x4000, 0x4002, 0x0001, 0x0000, 0x0002, 0xFFFF, 0x3FFF)
+SANE_SP = (0xFF40, 0x7F00, 0xBFF0, 0x5D00)
+
+
+def gen_code(rnd, org, m128, isr_addr, buf, edge=False):
     """A program (list of bytes) looping for ever; fragments chosen to hit the RZX protocol's cases."""
     def w(v):
         return [v & 255, (v >> 8) & 255]
+
+    def sp_frag(force=False):
+        # LD SP,nn (mostly an edge value) ; [IM 1 / IM 2] ; EI ; then wait for the frame interrupt (HALT, a tight loop,
+        # a loop of LD A,I / LD A,R) or just go on with the program
+        nn = rnd.choice(SPLIT_SP + EDGE_SP) if force or rnd.random() < 0.85 else rnd.choice(SANE_SP)
+        f = [0x31] + w(nn)
+        x = rnd.random() * (0.65 if force else 1)
+        if x < 0.3:
+            f += [0xED, 0x56]
+        elif x < 0.65:
+            f += [0xED, 0x5E]
+        f += [0xFB]
+        if force:
+            return f + rnd.choice(([0x76], [0x18, 0xFE], [0xED, 0x57, 0x18, 0xFC], [0xED, 0x5F, 0x18, 0xFC]))
+        return f + rnd.choice(([0x76], [0x76], [0x18, 0xFE], [0xED, 0x57, 0x18, 0xFC], [0xED, 0x5F, 0x18, 0xFC], [0x00], []))
     n = rnd.choice((24, 48, 90, 140))
     sub = org + n + 12
     code = []
@@ -214,6 +237,7 @@ def gen_code(rnd, org, m128, isr_addr, buf):
         (3, lambda: [rnd.choice((0x3C, 0x04, 0x0C, 0x27, 0x2F, 0x87, 0x90, 0xA8, 0x1F, 0x07, 0xD9, 0x08, 0xEB, 0x23, 0x13, 0x34, 0x77, 0x7E))]),
         (2, lambda: [0x32] + w(buf + rnd.randrange(32))),
         (2, lambda: [rnd.randrange(256) for _ in range(rnd.randrange(1, 4))]),              # soup
+        (4, sp_frag),                                                                       # interrupt accepted with SP at a ROM/RAM or 64K edge
     ]
     def pport(base, fixed):
         # the 128K decodes its ports partially: only the address lines in `fixed` matter (A15, A14?, A1); the others,
@@ -239,6 +263,8 @@ def gen_code(rnd, org, m128, isr_addr, buf):
             (2, lambda: [0x01, 0xFD, 0xFF, 0x3E, rnd.choice((0, 7, 13, 14, 15, 15, 16, 17, 31, rnd.randrange(16))), 0xED, 0x79, 0x06, 0xBF, 0xED, 0x59]),        # AY select ; AY write E
         ]
     total = sum(x for x, _ in frag_w)
+    if edge:
+        code += sp_frag(True)
     while len(code) < n:
         x = rnd.randrange(total)
         for wt, fn in frag_w:
@@ -252,7 +278,7 @@ def gen_code(rnd, org, m128, isr_addr, buf):
     return code
 
 
-def gen_isr(rnd):
+def gen_isr(rnd, org=0x8000):
     body = [0xF5]                                         # PUSH AF
     if rnd.random() < 0.7:
         body += [0xDB, 0xFE]                              # IN A,(254)
@@ -262,17 +288,22 @@ def gen_isr(rnd):
         body += [0xED, 0x57]
     body += [0xF1]                                        # POP AF
     tail = rnd.choice(([0xFB, 0xC9], [0xFB, 0xED, 0x4D], [0xFB, 0xC9], [0xC9], [0xFB, 0x00, 0xC9], [0xFB, 0x76, 0xC9]))
+    if rnd.random() < 0.35:
+        # a handler that does not trust the stack it was entered on: LD SP,nn ; [EI] ; JP org (the program starts again)
+        sp = rnd.choice(SANE_SP)
+        tail = [0x31, sp & 255, sp >> 8] + rnd.choice(([0xFB], [0xFB], [])) + [0xC3, org & 255, org >> 8]
     return body + tail
 
 
-def gen_machine(rnd, idx):
-    """-> abstract start machine (snapfile-style dict; banks as bytearrays)."""
-    m128 = rnd.random() < 0.4
+def gen_machine(rnd, idx, edge=False):
+    """-> abstract start machine (snapfile-style dict; banks as bytearrays).  edge: the program starts with LD SP,<edge
+    value> ; IM 1/2 ; EI ; wait, so that it certainly takes a frame interrupt with SP there (both machine types alike)."""
+    m128 = rnd.random() < (0.5 if edge else 0.4)
     org = rnd.choice((0x8000, 0x8000, 0x6000, 0xA000, 0x7FF0, 0xC000 if not m128 or rnd.random() < 0.3 else 0x9000))
     i_reg = rnd.choice((0xBE, 0x7D, 0x9A))
     isr = (i_reg << 8) + 0x180 + rnd.randrange(64)
     buf = rnd.choice((0x5B00, 0x7000, 0xB000, 0xC000 if m128 else 0xE000))
-    code = gen_code(rnd, org, m128, isr, buf)
+    code = gen_code(rnd, org, m128, isr, buf, edge)
     space = bytearray(65536)
     if rnd.random() < 0.25:
         for a in range(0x4000, 65536):
@@ -281,7 +312,7 @@ def gen_machine(rnd, idx):
         space[(org + k) & 0xFFFF] = b
     space[(i_reg << 8) + 0xFF] = isr & 255
     space[(i_reg << 8) + 0x100] = isr >> 8
-    for k, b in enumerate(gen_isr(rnd)):
+    for k, b in enumerate(gen_isr(rnd, org)):
         space[isr + k] = b
     m = {'machine': '128K' if m128 else '48K'}
     if m128 and rnd.random() < 0.15:
@@ -292,7 +323,8 @@ def gen_machine(rnd, idx):
         m[r16] = rnd.randrange(65536)
     m['iy'] = 0x5C3A if rnd.random() < 0.7 else rnd.randrange(65536)
     m['i'] = i_reg
-    m['sp'] = rnd.choice((0xFF40, 0x7F00, 0xBFF0, 0x5D00, 0x4002, 0x0000 if rnd.random() < 0.3 else 0xFFFE, rnd.randrange(0x5000, 0x10000)))
+    m['sp'] = rnd.choice((0xFF40, 0x7F00, 0xBFF0, 0x5D00, 0x4002, 0x0000 if rnd.random() < 0.3 else 0xFFFE, rnd.randrange(0x5000, 0x10000),
+                          rnd.choice(SPLIT_SP), rnd.choice(EDGE_SP)))
     m['pc'] = org
     m['iff1'] = m['iff2'] = rnd.choice((0, 1, 1))
     m['im'] = rnd.choice((1, 2, 2, 2, 0))
@@ -502,6 +534,7 @@ def record(m, plan, conv, cmio, inmode, inseed, splits=(), empties=False, zero_m
     rec = Recording()
     rec.frames, rec.ends, rec.bounds, rec.events, rec.snaps, rec.snapmode = [], [], [], [], {}, {}
     rec.rmismatch = 0
+    rec.intsp = []                                        # (SP, IM, decision) of every accepted interrupt with SP at an edge
     short = False
     steps = 0
     pi = 0
@@ -552,6 +585,8 @@ def record(m, plan, conv, cmio, inmode, inseed, splits=(), empties=False, zero_m
         elif dec == 'accept-pv':
             r[F] &= 0xFB
         if dec.startswith('accept'):
+            if r[SP] in EDGE_SP:
+                rec.intsp.append((int(r[SP]), int(r[IM]), dec))
             accept_interrupt(sim, pm.is128)
         if zero_memptr:
             r[MEMPTR] = 0
@@ -808,7 +843,7 @@ def probe_machine(rnd, idx):
 def one_recording(rseed, wd, idx, tier, cases, traces, stats):
     """Everything about recording `idx` derives from rseed, so that a replay can make it again."""
     rnd = random.Random(rseed)
-    m = gen_machine(rnd, idx)
+    m = gen_machine(rnd, idx, edge=idx % 8 == 1)          # one recording in eight is certain to take an interrupt with SP at an edge
     plan = gen_plan(rnd, 10 if tier == 'quick' else 14)
     conv = rnd.randrange(4)
     fmt = gen_fmt(rnd, m)
@@ -857,6 +892,16 @@ def one_recording(rseed, wd, idx, tier, cases, traces, stats):
             stats['empty-frames'] += 1
         if fr[1]:
             stats['frames-with-readings'] += 1
+    for cm in (0, 1):
+        for sp, im, dec in recs[cm].intsp:
+            # vacuity: frame-boundary interrupts accepted while the pushed PC straddles the ROM/RAM border or the 64K wrap
+            stats['int-sp-edge'] += 1
+            stats['int-sp:%04X' % sp] += 1
+            if sp in SPLIT_SP:
+                stats['int-sp-split'] += 1
+                stats['int-sp-split:im%d' % im] += 1
+                stats['int-sp-split:%s' % ('48K' if m['machine'] == '48K' else '128K')] += 1
+                stats['int-sp-split:%s' % dec] += 1
     stats['repeat-markers'] += sum(1 for b in files[0][1] for f in b['fs'] if f[1] == 65535)
     feclaim = 1 if fmt[0] == 'szx' else 0
     common = {'rec': idx, 'rseed': rseed, 'tier': tier, 'key': key, 'conv': conv, 'fmt': [fmt[0], fmt[1] or 0, 1 if fmt[2] else 0], 'feclaim': feclaim}
